@@ -139,7 +139,11 @@ def specs(thorough):
             for r in range(1, n + 1):
                 for sub in itertools.permutations(ids, r):
                     orders.append({i: k for k, i in enumerate(sub)})
+            for r in range(1, n + 1):
+                # indices need not be 0-based or contiguous
+                orders.append({i: 10 * (k + 1) for k, i in enumerate(reversed(ids[:r]))})
             if n >= 2:
+                orders.append({ids[-1]: 7})
                 orders.append({ids[0]: 5, ids[1]: 5})          # equal indices: stable
                 orders.append({ids[-1]: 0, 'ghost': 1})       # reference to a region that does not exist
             if not thorough and n == 3:
